@@ -75,11 +75,6 @@ impl LockFile {
                     // Process is not running, remove the lock
                     fs::remove_file(&lock_path).context("Failed to remove orphaned lock file")?;
                 }
-            } else if content.trim().is_empty() {
-                // The lock file is created first and written afterwards: a process that died in
-                // between (or whose write failed) leaves an empty file. It names no owner, so it
-                // can never be recognised as stale or orphaned; treat it as abandoned.
-                fs::remove_file(&lock_path).context("Failed to remove empty lock file")?;
             }
         }
 
